@@ -47,6 +47,8 @@ OBLIGATIONS = [
     "C02_full_revert_built", "C02_pop_step_built", "C02_opkind_functions_commute_with_selection", "C02_F_mix_opkinds",
     "C02_axis_closed_well_typed", "C02_partial_revert_well_typed", "C02_partial_revert_as_if_well_typed",
     "C02_ind_step_well_typed", "C02_later_history_opkinds", "C02_compose_examples",
+    # weighted values (State/StateWExec.v): mix = _select = row-wise selection of value AND weight
+    "C02_partial_revert_weighted", "C02_weighted_select_rows",
 ]
 
 HEADER = ("From Coq Require Import ZArith List Bool.\n"
@@ -54,6 +56,12 @@ HEADER = ("From Coq Require Import ZArith List Bool.\n"
           "Import ListNotations.\nOpen Scope Z_scope.\nOpen Scope nat_scope.\n")
 CASE_TYPE = "list nspec * list (xop * out xval * bool)"
 ASIF_TYPE = "list nspec * list xop * list xop * list nat"
+
+WHEADER = ("From Coq Require Import ZArith List Bool.\n"
+           "From Leaspy Require Import State.StateModel State.StateExec State.StateWExec.\n"
+           "Import ListNotations.\nOpen Scope Z_scope.\nOpen Scope nat_scope.\n")
+WCASE_TYPE = "list wspec * list (wop * out wval * bool)"
+WASIF_TYPE = "list wspec * list wop * list wop * list nat"
 
 SIG_F2 = "partial-revert:nonfinite-discarded-side-leaks"
 WHAT_F2 = ("State.revert(mask) computes old*mask + cur*~mask: a non-finite value on the DISCARDED side (inf*0, nan*0) turns the kept "
@@ -79,6 +87,8 @@ def nonfinite_discard(mask, fork_json, cur_json):
         cur = cur_json.get(k)
         if old is None or cur is None:
             continue
+        if T.is_weighted_json(old) and T.is_weighted_json(cur):
+            old, cur = old["wv"], cur["wv"]
         o = old if isinstance(old, list) else [old] * len(mask)
         c = cur if isinstance(cur, list) else [cur] * len(mask)
         if len(o) != len(mask) or len(c) != len(mask):
@@ -156,6 +166,20 @@ def gen_graph(rng):
     return G
 
 
+def gen_wgraph(rng):
+    """a C02 toy graph + nodes of the weighted vocabulary of state_toy (WeightedTensor whose weight is computed from a per-individual
+    parent, its per-individual and aggregated consumers)"""
+    G = gen_graph(rng)
+    used = {nd["name"] for nd in G.nodes}
+    left = [n for n in T.NAME_POOL if n not in used]
+    rng.shuffle(left)
+    nodes = [dict(nd) for nd in G.nodes]
+    T.add_weighted_nodes(rng, nodes, G.n_ind, G.dtype, left)
+    W = T.ToyGraph(nodes, G.n_ind, G.dtype)
+    W.log_vars = G.log_vars
+    return W
+
+
 LOG_VALUES = [1, 2, 4, 8, 16]
 LOG_TARGETS = [1, 2, 4, 8, 32, 0, 0, -1, -2, "inf"]
 
@@ -231,6 +255,13 @@ def gen_template(rng, G):
             pre = [rng.choice(names) for _ in range(rng.randint(0, 3))]          # before the proposal: anything
             tgt = target_value(rng, G, v, cur[v])
             mid = [rng.choice(allowed) for _ in range(rng.randint(0, 4))] if allowed else []
+            if G.weighted and is_ind:
+                # weighted graphs: per-individual descendants (the WeightedTensor nodes among them) cached BEFORE and AFTER the proposal,
+                # so that the decision meets doubly cached weighted nodes
+                below = [r for r in G.dag.sorted_children[v] if r in allowed]
+                if below:
+                    pre = pre + rng.sample(below, min(len(below), rng.randint(1, 2)))
+                    mid = mid + rng.sample(below, min(len(below), rng.randint(1, 3)))
             mask = None if s == enum_at else [rng.random() < 0.5 for _ in range(G.n_ind)]
             steps.append(dict(kind="ind", var=v, pre=pre, target=tgt, mid=mid, mask=mask))
         else:
@@ -406,12 +437,30 @@ def correspond(run: Run, name, runs, metas):
     return bad, repaired
 
 
-def toy_steps(run: Run, n_templates):
+def correspond_weighted(run: Run, name, runs, metas):
+    """histories on graphs with weighted values: the model of `_select` (row-wise selection of value AND weight, wsem_where) only"""
+    cases = [r.s.coq_case() for r in runs]
+    bad = run.vm_bad_indices(name + "_wwhere", WHEADER, WCASE_TYPE, cases, "(check_wcase_with wsem_where false)", shard=120) or []
+    run.extra.setdefault("partial_revert_semantics", {})[name] = dict(histories=len(cases), agree_with_weighted_selection_model=len(cases) - len(bad))
+    for i in bad:
+        r = runs[i]
+        run.fail("model-vs-code:sampler-step-history", "the State implementation and the Coq model of state.py (weighted values: `_select` = row-wise "
+                 "selection of value AND weight) disagree on the result of an operation of a sampler-shaped history: the theorems no longer speak about this code",
+                 dict(graph=r.G.to_json(), ops=r.ops(), which="weighted-selection-model", **metas[i]),
+                 expected="results computed by the model (coq/tmp)", observed=[list(x[1]) for x in r.s.records][-12:],
+                 kind="broken-correspondence")
+    return bad
+
+
+def toy_steps(run: Run, n_templates, weighted=False):
     runs, metas, asif = [], [], []
     masks_seen = {}
+    wstat = dict(histories=0, with_a_partial_revert_over_a_doubly_cached_weighted_node=0, of_which_the_weights_differ_between_the_sides=0)
     for t in range(n_templates):
-        rng = run.rng("c02-toy", t)
-        G = gen_graph(rng)
+        rng = run.rng("c02-wtoy" if weighted else "c02-toy", t)
+        G = gen_wgraph(rng) if weighted else gen_graph(rng)
+        if weighted and not G.weighted:
+            continue
         try:
             G.build()
         except Exception as e:  # noqa
@@ -431,7 +480,11 @@ def toy_steps(run: Run, n_templates):
             runs.append(sr)
             metas.append(dict(case=t, mask=[int(m) for m in mask]))
             masks_seen[G.n_ind] = masks_seen.get(G.n_ind, 0) + 1
-            run.case(("toy", json.dumps(G.to_json(), sort_keys=True), json.dumps(sr.ops())), nontrivial=True)
+            run.case(("wtoy" if weighted else "toy", json.dumps(G.to_json(), sort_keys=True), json.dumps(sr.ops())), nontrivial=True)
+            if weighted:
+                wstat["histories"] += 1
+                wstat["with_a_partial_revert_over_a_doubly_cached_weighted_node"] += bool(sr.s.weighted_masks)
+                wstat["of_which_the_weights_differ_between_the_sides"] += bool(sr.s.weight_flipping_masks)
             run.count("rejected_individuals", sum(mask))
             run.count("nonfinite_discarded_side", "yes" if sr.nonfinite_steps else "no")
             report_failures(run, G, sr, metas[-1])
@@ -440,16 +493,25 @@ def toy_steps(run: Run, n_templates):
             if t in (1, 7) and sum(mask) == 1 and len(run.samples) < 4:
                 run.sample(dict(kind="toy sampler-shaped history", graph=G.to_json(), mask=[int(m) for m in mask],
                                 history=[dict(op=r[0], out=r[1]) for r in sr.s.records[:30]]))
-    run.extra["masks_enumerated"] = {f"n={k}": f"{v} histories = {v // (2 ** k)} templates x all {2 ** k} masks" for k, v in sorted(masks_seen.items())}
-    correspond(run, "toy", runs, metas)
-    # the model's own "as if": after the history, all reads equal the reads after assigning the expected values directly (selection mix)
-    bad = run.vm_bad_indices("asif", HEADER, ASIF_TYPE, [r.asif_case() for r in asif], "(check_as_if xsem_where)", shard=150) or []
+    if weighted:
+        run.extra["weighted_masks_enumerated"] = {f"n={k}": f"{v} histories = {v // (2 ** k)} templates x all {2 ** k} masks" for k, v in sorted(masks_seen.items())}
+        run.extra["weighted_toy_steps"] = wstat
+        if n_templates and wstat["of_which_the_weights_differ_between_the_sides"] < max(5, n_templates // 4):
+            run.broken("generator:weighted-shape", f"too few sampler-shaped histories with a partial revert over a doubly cached weighted node whose weights "
+                       f"differ between the two sides: {wstat}", kind="broken-correspondence")
+        correspond_weighted(run, "wtoy", runs, metas)
+        bad = run.vm_bad_indices("wasif", WHEADER, WASIF_TYPE, [r.asif_case() for r in asif], "(check_was_if wsem_where)", shard=150) or []
+    else:
+        run.extra["masks_enumerated"] = {f"n={k}": f"{v} histories = {v // (2 ** k)} templates x all {2 ** k} masks" for k, v in sorted(masks_seen.items())}
+        correspond(run, "toy", runs, metas)
+        # the model's own "as if": after the history, all reads equal the reads after assigning the expected values directly (selection mix)
+        bad = run.vm_bad_indices("asif", HEADER, ASIF_TYPE, [r.asif_case() for r in asif], "(check_as_if xsem_where)", shard=150) or []
     for i in bad:
         r = asif[i]
         run.fail("model:as-if-reference", "in the Coq model (selection mix) the reads after a sampler-shaped history differ from the reads after "
                  "assigning the expected values directly: the reference used by the oracle and the model's partial revert disagree",
                  dict(graph=r.G.to_json(), ops=r.ops()), kind="broken-correspondence")
-    run.extra["as_if_cases_in_model"] = len(asif)
+    run.extra["weighted_as_if_cases_in_model" if weighted else "as_if_cases_in_model"] = len(asif)
 
 
 # ----------------------------------------------------------------------------- the witness of F2 on the real State
@@ -1163,6 +1225,11 @@ def main(run: Run):
     except Exception as e:  # noqa
         import traceback
         run.broken("toy-steps", f"{type(e).__name__}: {e}\n{traceback.format_exc()[-1500:]}")
+    try:
+        toy_steps(run, 160 if thorough else 50, weighted=True)
+    except Exception as e:  # noqa
+        import traceback
+        run.broken("toy-steps-weighted", f"{type(e).__name__}: {e}\n{traceback.format_exc()[-1500:]}")
     from harness.props import c03
     cfgs = c03.configs(thorough)
     if not thorough:
@@ -1233,14 +1300,23 @@ def replay(run: Run, path: str):
             print(f"  {op}  ->  {out}")
         for f in sr.failures:
             print(f"TRACE LEFT after step {f['step']}: node {f['node']}: read {f['observed']} but the reference state gives {f['expected']}  [{f['sig']}]")
-        r = run.vm_bad_indices("replay", HEADER, CASE_TYPE, [sr.s.coq_case()], "check_code")
-        rw = run.vm_bad_indices("replay_w", HEADER, CASE_TYPE, [sr.s.coq_case()], "check_where")
-        print("implementation agrees with the model of the code as it is:", r == [], "| with the model of the repair (torch.where):", rw == [])
+        if G.weighted:
+            r = rw = run.vm_bad_indices("replay", WHEADER, WCASE_TYPE, [sr.s.coq_case()], "(check_wcase_with wsem_where false)")
+            print("implementation agrees with the model (weighted values: `_select` = row-wise selection of value AND weight):", r == [])
+        else:
+            r = run.vm_bad_indices("replay", HEADER, CASE_TYPE, [sr.s.coq_case()], "check_code")
+            rw = run.vm_bad_indices("replay_w", HEADER, CASE_TYPE, [sr.s.coq_case()], "check_where")
+            print("implementation agrees with the model of the code as it is:", r == [], "| with the model of the repair (torch.where):", rw == [])
         bad = bool(sr.failures) or (bool(r) and bool(rw))
     else:
         s = T.run_ops(G, inp["ops"], oracle=False)
         for op, out, ok in s.records:
             print(f"  {op}  ->  {out}")
+        if G.weighted:
+            r = rw = run.vm_bad_indices("replay", WHEADER, WCASE_TYPE, [s.coq_case()], "(check_wcase_with wsem_where false)")
+            print("implementation agrees with the model (weighted values: `_select` = row-wise selection of value AND weight):", r == [])
+            print("REPLAY", "FAILS" if r else "passes")
+            return 1 if r else 0
         r = run.vm_bad_indices("replay", HEADER, CASE_TYPE, [s.coq_case()], "check_code")
         rw = run.vm_bad_indices("replay_w", HEADER, CASE_TYPE, [s.coq_case()], "check_where")
         print("implementation agrees with the model of the code as it is:", r == [], "| with the model of the repair (torch.where):", rw == [])
